@@ -388,6 +388,12 @@ def cli_saved_vs_direct(ctx, case, mode="file", use_latest=True):
         saved = os.path.join(d, "saved plan é.json")
         if mode == "plan_out":
             plan_path = saved
+        if case.get("overwrite"):
+            # an earlier plan for a LONGER replacement was written to the same path and never applied: the plan that counts
+            # must replace it completely
+            run1(["plan", case["search"], case["replace"] + "_and_a_long_tail_from_an_earlier_plan"] + extra
+                 + (["--plan-out", saved] if mode == "plan_out" else []) + ["--no-auto-init", "--quiet"])
+        if mode == "plan_out":
             rc, so, se = run1(["plan", case["search"], case["replace"]] + extra + ["--plan-out", saved, "--no-auto-init", "--quiet"])
         else:
             rc, so, se = run1(["plan", case["search"], case["replace"]] + extra + ["--no-auto-init", "--quiet"])
@@ -398,7 +404,7 @@ def cli_saved_vs_direct(ctx, case, mode="file", use_latest=True):
             return None
         plan = json.load(open(plan_path))
         size = len(plan["matches"]) + len(plan["paths"])
-        info = {"class": case["class"], "load_mode": mode, "search": case["search"], "replace": case["replace"],
+        info = {"class": case["class"], "load_mode": mode, "overwrite": bool(case.get("overwrite")), "search": case["search"], "replace": case["replace"],
                 "path_arg": case["path_arg"], "tree": common.snap_digest(before), "tree_src": tree_src(case["tree"]),
                 "plan_size": size, "sequence": seq}
         ctx.case(("cli-a", case["class"], mode, case["search"], case["replace"], sorted(case["tree"])), nontrivial=size > 0)
@@ -656,7 +662,9 @@ def run(ctx):
                 continue
             ctx.violation("input", {"op": "serde", "request": req, "value": v}, expected="de=ok same=1 load=ok", observed=got,
                           model_prediction=tail(model) if model else None,
-                          note="a generated value written by write_plan / History::save does not load back to the same value")
+                          note=("written over an earlier, longer document at the same path the file does not hold exactly the new "
+                                "document (ow=differs:<new document is a prefix>+<extra bytes>)" if " ow=" in impl else
+                                "a generated value written by write_plan / History::save does not load back to the same value"))
             break      # one in-process counterexample is enough; go on to see whether the CLI reaches it
         ctx.sample({"op": "serde", "request": reqs[0][:300], "impl": impl_lines[0][-60:]})
 
@@ -664,6 +672,9 @@ def run(ctx):
     per_class = 30 if ctx.thorough else 6
     for i in range(N_CLASSES * per_class):
         case = gen_cli_case(rng, i)
+        case["overwrite"] = ((i // N_CLASSES) // 3) % 2 == 1     # every load mode with and without an earlier plan at the path
+        if case["overwrite"]:
+            ctx.count("cli:a:over-an-earlier-longer-plan")
         r = cli_saved_vs_direct(ctx, case, mode=LOAD_MODES[(i // N_CLASSES) % 3], use_latest=(i // N_CLASSES) % 2 == 0)
         if r is None:
             continue
